@@ -1074,8 +1074,21 @@ def gen_seq(rnd, n_seq, shape=None, fsm=True):
         rnd.shuffle(plan['blocks'])
     elif shape == 'two_domains':
         # registers of two clock domains feed each other (second domain = a wrapper with its own ClockDriver)
-        en = g.input(1) if rnd.random() < 0.5 else None
-        plan['scopes'] = [dict(path='dom', clock=dict(name='ckB', enable=en))]
+        # the second domain is always running, gated by a poked input, or gated by a REGISTER output (toggling, or a
+        # registered copy of an input) so that the enable changes from edge to edge inside one clk(n) call
+        mode = rnd.choice(['none', 'input', 'toggle', 'delayed', 'toggle', 'delayed'])
+        en = None
+        if mode == 'input':
+            en = g.input(1)
+        elif mode == 'toggle':
+            en = g.wire(1)
+            nen = g.wire(1)
+            cat('Not', (1, 1), [en, nen])
+            reg(nen, en)
+        elif mode == 'delayed':
+            en = g.wire(1)
+            reg(g.input(1), en)
+        plan['scopes'] = [dict(path='dom', clock=dict(name='ckB', enable=en, mode=mode))]
         qs = [g.wire(w) for _ in range(n_seq)]
         for i in range(n_seq):
             src = qs[i - 1]
